@@ -1199,6 +1199,9 @@ enum Conv {
     NotJudged,
     /// out of the signed range: false or the exact answer
     Big(Num),
+    /// a non-integral double under int(): the rounding mode is not documented, any integer
+    /// between floor and ceil is admissible
+    Either(Num, Num),
 }
 
 fn conv_int(v: &DocVal) -> Conv {
@@ -1213,10 +1216,14 @@ fn conv_int(v: &DocVal) -> Conv {
             }
         }
         DocVal::Float(f) => {
-            if f.is_finite() && f.fract() == 0.0 && *f >= -9.2e18 && *f <= 9.2e18 {
+            // i64 holds -2^63 ..= 2^63-1; 9223372036854775808.0 is 2^63 exactly
+            let r = f.round();
+            if !f.is_finite() || r < -9223372036854775808.0 || r >= 9223372036854775808.0 {
+                Conv::No
+            } else if f.fract() == 0.0 {
                 Conv::Ok(Num::I(*f as i128))
             } else {
-                Conv::NotJudged
+                Conv::Either(Num::I(f.floor() as i128), Num::I(f.ceil() as i128))
             }
         }
         DocVal::Str(s) => match s.parse::<i64>() {
@@ -1578,6 +1585,7 @@ impl<'a> Evaluator<'a> {
         match conv_int(v) {
             Conv::Ok(x) => bool_set(cmp_exact(x, op, c)),
             Conv::Big(x) => bool_set(cmp_exact(x, op, c)) | FM,
+            Conv::Either(a, b) => bool_set(cmp_exact(a, op, c)) | bool_set(cmp_exact(b, op, c)),
             Conv::No => FM,
             Conv::NotJudged => self.nj(),
         }
@@ -1645,7 +1653,7 @@ impl<'a> Evaluator<'a> {
         match (sa, sb) {
             (Side::Absent, Side::Absent) => M,
             (Side::Absent, Side::Val(c)) | (Side::Val(c), Side::Absent) => match c {
-                Conv::Ok(_) => M,
+                Conv::Ok(_) | Conv::Either(_, _) => M,
                 Conv::No | Conv::Big(_) => FM,
                 Conv::NotJudged => self.nj(),
             },
@@ -1653,8 +1661,25 @@ impl<'a> Evaluator<'a> {
                 (Conv::NotJudged, _) | (_, Conv::NotJudged) => self.nj(),
                 (Conv::No, _) | (_, Conv::No) => FM,
                 (Conv::Ok(p), Conv::Ok(q)) => bool_set(cmp_exact(p, op, q)),
-                (Conv::Big(p), Conv::Ok(q)) | (Conv::Ok(p), Conv::Big(q)) | (Conv::Big(p), Conv::Big(q)) => {
-                    bool_set(cmp_exact(p, op, q)) | FM
+                (x, y) => {
+                    // every combination of admissible conversions
+                    let cands = |c: &Conv| -> (Vec<Num>, bool) {
+                        match c {
+                            Conv::Ok(p) => (vec![*p], false),
+                            Conv::Big(p) => (vec![*p], true),
+                            Conv::Either(a, b) => (vec![*a, *b], false),
+                            _ => (vec![], true),
+                        }
+                    };
+                    let (xs, xw) = cands(&x);
+                    let (ys, yw) = cands(&y);
+                    let mut out = if xw || yw { FM } else { 0 };
+                    for p in &xs {
+                        for q in &ys {
+                            out |= bool_set(cmp_exact(*p, op, *q));
+                        }
+                    }
+                    out
                 }
             },
         }
